@@ -329,6 +329,7 @@ def run(ctx):
     ctx.coq_file(os.path.join(C.COQ, "props", "C19.v"))
     bad = C.hygiene()
     ctx.obligation("hygiene: no Admitted/Axiom/Parameter/... in coq/", not bad, "; ".join(bad))
+    chk = dsfs.coqchk_start(C.COQ, "C19") if not ctx.quick() else None
     C.use_shadow()
     C.pqref()
     rng = ctx.rng
@@ -370,6 +371,7 @@ def run(ctx):
     for l, m in zip(lists, mo):
         ctx.correspondence("FsPaths.find_max_part ~ writer.find_max_part", {"paths": l}, m, real_find_max_part(l))
     model_trace = {"equal": 0, "different": 0, "examples": []}
+    strict = {"true": 0, "false": 0}
     cmds, meta = [], []
     for res in results:
         sc = by_id[res["id"]]
@@ -406,8 +408,10 @@ def run(ctx):
             if r["k"] is not None and r["fired"] is None:
                 ctx.obligation("fault injector reached call %s of scenario %s" % (r["k"], sc["id"]), False, "the k-th call was never issued")
             # tie 1: the checker on the recorded (possibly interrupted) trace
-            cmds.append(("safe_trace", [p.encode() for p in refs], dsfs.sx_trace([(c[0], c[1], b"") if c[0] == "write" else c for c in r["trace"]])))
+            cmds.append(("safe_trace_sym", [p.encode() for p in refs], dsfs.sx_trace([(c[0], c[1], b"") if c[0] == "write" else c for c in r["trace"]])))
             meta.append(("safe", short, r))
+            cmds.append(("safe_trace", [p.encode() for p in refs], dsfs.sx_trace([(c[0], c[1], b"") if c[0] == "write" else c for c in r["trace"]])))
+            meta.append(("strict", short, r))
             # tie 2: what the fresh open opened for reading
             if "read_opens" in r:
                 allowed = set(r["refs_after"]) | {dsfs.MD}
@@ -433,8 +437,12 @@ def run(ctx):
             if not same and len(model_trace["examples"]) < 3:
                 model_trace["examples"].append({"scenario": short["scenario"], "model": str(mt)[:600], "recorded": str(r)[:600]})
             continue
+        if kind == "strict":
+            # information: the stricter relation `safe_trace` (_metadata before _common_metadata), which the code implements today
+            strict["true" if o == 1 else "false"] += 1
+            continue
         if kind == "safe":
-            ok = ctx.correspondence("check_safe_trace(recorded trace of the real append) = true", short, 1, o)
+            ok = ctx.correspondence("check_safe_trace_sym(recorded trace of the real append) = true", short, 1, o)
             if not ok and len(ctx.broken) and "trace" not in ctx.broken[-1]:
                 ctx.broken[-1]["trace"] = dsfs.trace_json(r["trace"], 200)
         else:
@@ -443,9 +451,13 @@ def run(ctx):
                                dict(sorted(model.items())) if isinstance(model, dict) else model,
                                dict(sorted(dsfs.hashes(r["snap1"]).items())))
     pq.close()
+    ctx.extra["strict_safe_trace_on_recorded_traces"] = strict
     ctx.extra["model_trace_vs_recorded_fault_free_trace"] = model_trace
     ctx.notes.append("Ops.append_trace (witness of the relation) equals the recorded fault-free call trace in %d of %d scenarios (information, not an obligation)" % (
         model_trace["equal"], model_trace["equal"] + model_trace["different"]))
+
+    if chk is not None:
+        dsfs.coqchk_finish(ctx, chk, "C19")
 
 
 def replay(rep):
